@@ -13,7 +13,7 @@ FUNCTIONS = [
 ]
 BOUNDS = {
     "quick": "4 rows on 3 plates (two screens), every initial per-plate status, symbolic observation values, every history of 2 operations from {reveal(<=2 plate ids incl. repeated / already observed / unknown ids -1 and n_plates), mask, unmask, save+load, reveal via CLI}; construction: every per-row mask on 4 rows",
-    "thorough": "5 rows with histories of 3 operations, and 6 rows on 4 plates with histories of 2 operations",
+    "thorough": "4 rows with histories of 3 operations, and 5 and 6 rows (4 plates) with histories of 2 operations",
 }
 ASSUMPTIONS = [
     "names/doses are concrete (construction on arbitrary names is C01); observation values are symbolic reals (finite), with separate concrete zero / NaN cases",
@@ -37,7 +37,7 @@ def configs(tier, seed):
     q = tier == "quick"
     out = [dict(name="construct %s" % st, h="construct", st=st, R=4) for st in ("A", "B")]
     for st in ("A", "B"):
-        for R, L in (((4, 2),) if q else ((5, 3), (6, 2))):
+        for R, L in (((4, 2),) if q else ((4, 3), (5, 2), (6, 2))):
             out.append(dict(name="history %s R=%d L=%d" % (st, R, L), h="history", st=st, R=R, L=L))
     out.append(dict(name="reveal-guards", h="guards", st="A", R=4))
     out.append(dict(name="set_observed", h="setobs", st="A", R=4))
@@ -115,7 +115,9 @@ def h_history(ctx, cfg):
     ctx.prove(meta0["n_unobserved_plates"] == n_unobs and meta0["n_observed_plates"] == P - n_unobs and meta0["n_plates"] == P,
               "metadata counts observed / unobserved plates")
     hist = []
+    earlier = []  # every screen the history has produced so far, with the status and values it had when produced
     for step in range(cfg["L"]):
+        earlier.append((s, list(cur_mask), s.observations.tolist()))
         op = int(ctx.int("op%d" % step, 0, 4))
         if op in (0, 4):  # reveal(list of plate ids), directly or through the CLI
             a = int(ctx.int("a%d" % step, -1, P))  # ids -1 and P are unknown
@@ -173,6 +175,12 @@ def h_history(ctx, cfg):
         if newly is not None:
             m = _meta(ctx, s2, "s%d" % step)
             ctx.prove(m["n_unobserved_plates"] == n_unobs - newly, "number of unobserved plates drops by exactly the newly revealed plates")
+        # histories branch (two reveals from one masked screen): an operation must leave the screens it was given as they
+        # were, otherwise a later reveal from the same screen observes more than "exactly those plates plus the already observed"
+        for e_s, e_mask, e_obs in earlier:
+            ctx.prove(e_s.observation_mask.tolist() == e_mask and all_same(ctx, e_s.observations.tolist(), e_obs),
+                      "the screens an operation was applied to keep their own observation status and values",
+                      key="earlier screen modified by %s" % hist[-1][0])
         n_unobs = len({rows[i][5] for i in range(R) if not got[i]})
         cur_mask = got
         s = s2
